@@ -1,5 +1,6 @@
 """C07 — unsafe content never reaches executed code, whatever is merged around it."""
 from props.evalfam import *
+import gen_merge as G
 
 class C07(EvalFamProp):
     ID = 'C07'
@@ -105,6 +106,11 @@ class C07(EvalFamProp):
         # document): nothing of the file may run (S6-C07)
         for _ in range(max(3, n // 8)):
             out.append(gen_inc_case(rng))
+        # a LONG list of plain scalars with one unsafe element (tagged, patched in by a later document through an index key, or appended
+        # by an unsafe source), consumed by a call / bind / eval directly or through a reference (seeded change S8-C07: lists of ten or
+        # more plain scalars were evaluated without looking at their elements)
+        for _ in range(max(3, n // 10)):
+            out.append(gen_biglist_case(rng, ctr))
         return out
 
     def model_requests(self, case):
@@ -404,3 +410,36 @@ def oracle_inc(case, io):
     if 'ok' in io['cfg']:
         return f'build succeeded although the dynamic nodes of a file included by an unsafe !include node ({how}) survive'
     return None
+
+
+def gen_biglist_case(rng, ctr):
+    call = lambda f, items, **kw: M(items, tag={'k': rng.choice(['call', 'bind']), 'f': f}, **kw)
+    ln = rng.choice([3, 9, 10, 11, 12, 13, 25])
+    def mk():
+        ctr[0] += 1
+        return ctr[0]
+    elems = [S(mk()) for _ in range(ln)]
+    how = rng.choice(['tag', 'tag', 'patch', 'patchneg', 'append', 'none'])
+    pos = rng.choice([0, ln - 1, ln - 2, rng.randrange(ln)])
+    docs = []
+    if how == 'tag':
+        elems[pos] = S(mk(), kw={'safe': False})
+    lst = Q(elems)
+    consumer = rng.choice(['arg', 'xref', 'eval', 'nested'])
+    if consumer == 'arg':
+        items = [('c', call('rec.f', {0: lst})), ('k', S(1))]
+    elif consumer == 'xref':
+        items = [('x', lst), ('c', call('rec.f', {0: Stext('x', 'xref')}))]
+    elif consumer == 'eval':
+        items = [('x', lst), ('c', Stext('T(x)', 'eval'))]
+    else:
+        items = [('w', M([('x', lst)])), ('c', call('rec.g', {'p': Stext('w', 'xref')}))]
+    rng.shuffle(items)
+    docs.append({'raw': M(items)})
+    where = {'arg': ['c', 0], 'xref': ['x'], 'eval': ['x'], 'nested': ['w', 'x']}[consumer]
+    if how in ('patch', 'patchneg'):
+        key = pos if how == 'patch' else pos - ln
+        docs.append({'raw': G.nest(where, M([(key, S(mk(), kw={'safe': False}))]))})
+    elif how == 'append':
+        docs.append({'raw': G.nest(where, Q([S(mk())], tag='append')), 'safe': False})
+    return {'docs': docs, 'style': ['flow', 0, 0]}
